@@ -23,8 +23,11 @@ Definition py_index (s : bytes) (i : Z) : res Z :=
   let j := if i <? 0 then i + n else i in
   if (j <? 0) || (n <=? j) then Err IndexError
   else match nth_error s (Z.to_nat j) with Some b => Ok (b2z b) | None => Err IndexError end.
-(* b[lo:hi] for 0 <= lo (all uses); clamps like Python *)
+(* b[lo:hi] for 0 <= lo (all uses); both bounds are clamped to len(b) first, like Python
+   (so a declared push length of 2^32-1 never becomes a unary number) *)
 Definition py_slice (s : bytes) (lo hi : Z) : bytes :=
+  let n := lenZ s in
+  let lo := Z.min lo n in let hi := Z.min hi n in
   firstn (Z.to_nat (hi - lo)) (skipn (Z.to_nat lo) s).
 (* bytes([n]) *)
 Definition bytes1 (n : Z) : res bytes :=
